@@ -146,6 +146,8 @@ pub struct LogicalOpts {
     pub empty_locations: bool,
     /// (concat) store the first content pack twice in the container
     pub concat_dup: bool,
+    /// (loose / concat) list the content packs in the manifest in a seeded order instead of by id
+    pub shuffle_manifest: bool,
 }
 
 /// What was written, as the generator knows it (the reference model).
@@ -743,6 +745,14 @@ fn build_inner(
             let mut mpc = creator::ManifestPackCreator::new(vendor, Default::default());
             let loc = |s: String| if logical.opts.empty_locations { String::new() } else { s };
             mpc.add_pack(dir_data, loc(format!("{name}.jbkd")));
+            let mut pack_datas = pack_datas;
+            if logical.opts.shuffle_manifest {
+                let mut rng = Rng::derive(logical.aux_seed, "manifest-order", 0);
+                rng.shuffle(&mut pack_datas);
+                if pack_datas.len() >= 2 && pack_datas.windows(2).all(|w| w[0].0.pack_id.into_u64() < w[1].0.pack_id.into_u64()) {
+                    pack_datas.swap(0, 1);
+                }
+            }
             for (data, path) in pack_datas {
                 mpc.add_pack(
                     data,
